@@ -401,10 +401,20 @@ func optionalDefaults(defaults starlark.Tuple) starlark.Tuple {
 	return optional
 }
 
+// A builtinRef stands for a builtin function in a decoded environment. It is a type of its own, so
+// that it equals nothing a program can write - in particular not the string that spells its name.
+type builtinRef string
+
+func (b builtinRef) String() string        { return "<built-in function " + string(b) + ">" }
+func (b builtinRef) Type() string          { return "builtin_function_or_method" }
+func (b builtinRef) Freeze()               {} // immutable
+func (b builtinRef) Truth() starlark.Bool  { return starlark.True }
+func (b builtinRef) Hash() (uint32, error) { return starlark.String(b).Hash() }
+
 // envUnpickler provides support for unpickling functions and modules.
 //
-//   - Builtins are unpickled from (NEWOBJ "dawn" "Builtin" (name,)) into name, bound methods
-//     from (NEWOBJ "dawn" "Builtin" (name, receiver)) into (name, receiver)
+//   - Builtins are unpickled from (NEWOBJ "dawn" "Builtin" (name,)) into a builtinRef, bound
+//     methods from (NEWOBJ "dawn" "Builtin" (name, receiver)) into (builtinRef, receiver)
 //   - Function code is unpickled from (NEWOBJ "dawn" "FunctionCode" (module, globals, bytecode))
 //     into a dictionary.
 //   - Ranges and string views are unpickled from (NEWOBJ "dawn" "Iterable" (type, printed form))
@@ -433,8 +443,14 @@ func envUnpickler(module, name string, args starlark.Tuple) (starlark.Value, err
 			// written by older versions, which did not record the name
 			return args, nil
 		case 1:
+			if name, ok := args[0].(starlark.String); ok {
+				return builtinRef(name), nil
+			}
 			return args[0], nil
 		case 2:
+			if name, ok := args[0].(starlark.String); ok {
+				return starlark.Tuple{builtinRef(name), args[1]}, nil
+			}
 			return args, nil
 		default:
 			return nil, fmt.Errorf("expected at most 2 args, got %v", len(args))
